@@ -60,13 +60,15 @@ PROPERTIES = {
         note='Trusted: Verus+Z3; rustc -Zunpretty=expanded as the source of the verified text; arm lifting; sink model vw_write (Vec<u8> write_all appends big-endian bytes, never fails); vectors fit their count field.',
         out=['recursive attribute variants using this._len()', 'AttributeInfo::_read / _len, ClassFile::read (pool with long/double)', 'CpInfo, FieldInfo, MethodInfo writers']),
     'C07': dict(
-        level='proof', verus=['remap', 'remapapi'], kani=[],
+        level='proof', verus=['remap', 'remapapi'], kani=[], enum=['remapjar'],
         technique=VERUS_TECH,
+        explanation='Bounded part (never counted as proved): dukebox::remap::remap on 22 000 generated jars x remappers (class / member tables none, halves, all; five input forms: parsed bytes / trees / mixed, deflated and stored zip; '
+                    'all 120 entry orders; non-class entries; unparsed entries; multi-release entries), observed on the returned jar, on the written archive and on the archive re-opened through dukebox (kx/enum/remapjar_group.py lists the universes).',
         claim='Unbounded proof, for the functions under contract only: every `impl Mappable / MappableWithClassName for X` of dukebox/src/remap.rs returns a value in which every field / enum payload whose type carries '
               'class, field or method references holds the remapped value of the input\'s field (the remapper\'s own answer at the leaves), and every other field is unchanged (nothing dropped). '
-              'Partial: that Option<T> / Vec<T> map element-wise is assumed; jar level (entry names, zip I/O) and the remapper itself (C06) are not under contract here.',
+              'Partial: that Option<T> / Vec<T> map element-wise is assumed; the remapper itself (C06) is not under contract here; the jar level (entry names, non-class entries, re-opening) is covered by the bounded enumeration only.',
         note='Trusted: Verus+Z3; extraction rewrites (trait impls emitted as inherent impls, component calls resolved to a blanket stub with the contract == sp_remap); the reference-carrying type table written from the property statement; opaque name types.',
-        out=['dukebox/src/remap.rs remap / remap_jar_entry_name (jar level, zip I/O)', 'blanket impls for Option<T> / Vec<T> / &T (closures, iterator adapters)', 'impl Mappable for InnerClass (closure + transpose)']),
+        out=['dukebox/src/remap.rs remap / remap_jar_entry_name (jar level, zip I/O) -- bounded only', 'remappers that send two class entries to one name (the statement has no model for them)', 'blanket impls for Option<T> / Vec<T> / &T (closures, iterator adapters)', 'impl Mappable for InnerClass (closure + transpose)']),
     'C15': dict(
         level='proof', verus=['bridge'], kani=[], enum=['bridge'],
         technique=VERUS_TECH,
